@@ -126,6 +126,7 @@ structure Cfg where
   refreshAfterSample : Bool   -- the context cache is refreshed after `ts_now` is taken (repaired order)
   catchAllFormat : Bool
   reportBeforeFlushCleanup : Bool   -- the Flush path reports the failure counters before removing contexts (repaired)
+  cleanupReportsCounter : Bool := true   -- the clean-up reports the failure counters right before it removes a context (repaired, F24)
   deriving Repr
 
 structure BSt where
